@@ -129,7 +129,16 @@ static inline std::string dumpN(JsonVariantConst v, size_t& nest, bool observe =
     case VariantType::LinkedString:
     case VariantType::OwnedString: {
       JsonString s = v.as<JsonString>();
-      return "s" + hex(s.c_str(), s.size());
+      std::string out = "s" + hex(s.c_str(), s.size());
+      if (observe) {
+        // the other string accessors agree: std::string carries every byte, const char* stops at the first NUL
+        std::string bytes(s.c_str(), s.size());
+        const char* p = v.as<const char*>();
+        if (v.as<std::string>() != bytes) out += "!OBS:stdstring";
+        else if (!p || std::string(p) != std::string(bytes.c_str())) out += "!OBS:cstr";
+        else if (!v.is<const char*>() || !v.is<std::string>() || v.is<int>() || v.isNull()) out += "!OBS:is";
+      }
+      return out;
     }
     case VariantType::RawString: {
       JsonString s = d->asRawString();
